@@ -66,6 +66,30 @@ func checkGuards(w *World, c *Check, rule, fnKey string, cls ExitClass, specs []
 	res := map[string][]Edge{}
 	for _, g := range specs {
 		pass, all := fa.MatchGuardSet(g.Main, g.Unless)
+		// exits that hand back the results of a helper introduced later (a tail call): the guard may
+		// live there — such an exit is guarded if every success exit of the helper is
+		exits := exits
+		if !g.RejectForm {
+			var rest []Exit
+			delegated := 0
+			for _, x := range exits {
+				if delegatedGuard(fa, x, cls, g) {
+					delegated++
+					continue
+				}
+				rest = append(rest, x)
+			}
+			if delegated > 0 {
+				exits = rest
+				if len(rest) == 0 {
+					c.Ok(rule, fnKey, g.Name, where, g.Desc)
+					if len(pass) > 0 {
+						res[g.Name] = pass
+					}
+					continue
+				}
+			}
+		}
 		if len(pass) == 0 {
 			c.Fail(rule, fnKey, g.Name, where, g.Desc,
 				"no branch in the function tests this condition (guard deleted, or it compares other operands); conditions present: "+fa.condSummary())
@@ -358,6 +382,18 @@ func ruleFalseHasError(w *World, c *Check, rule string, fnKeys ...string) {
 			ev := rs[len(rs)-1]
 			ok := fa.knownNonNilErr(ev, x.In)
 			if !ok {
+				// returning the pair of a helper introduced later: the helper must keep the discipline
+				if ex, isEx := ev.(*ssa.Extract); isEx {
+					if ex0, isEx0 := rs[0].(*ssa.Extract); isEx0 && ex0.Tuple == ex.Tuple {
+						if call, isCall := ex.Tuple.(*ssa.Call); isCall {
+							if g := call.Call.StaticCallee(); g != nil && newHelper(g) && falseHasErrorIn(w, g, 0) {
+								ok = true
+							}
+						}
+					}
+				}
+			}
+			if !ok {
 				// returning the callee's own (bool, error) pair unchanged keeps the callee's discipline
 				if ex, isEx := ev.(*ssa.Extract); isEx {
 					if call, isCall := ex.Tuple.(*ssa.Call); isCall {
@@ -466,4 +502,76 @@ func callVariants(fa *FuncAn, ci ssa.CallInstruction) []string {
 		out = append(out, sub.RenderCall(ci))
 	}
 	return out
+}
+
+// falseHasErrorIn: every exit of g (first result bool, last result error) that does not report
+// true carries an error known to be non-nil.
+func falseHasErrorIn(w *World, g *ssa.Function, depth int) bool {
+	if depth > 2 || len(g.Blocks) == 0 {
+		return false
+	}
+	ga := NewFuncAn(w, g)
+	n := 0
+	for _, x := range ga.Exits() {
+		rs := RetResults(x.Ret)
+		if len(rs) < 2 {
+			return false
+		}
+		if v, known := ga.knownBool(rs[0], x.In); known && v {
+			continue
+		}
+		n++
+		if !ga.knownNonNilErr(rs[len(rs)-1], x.In) {
+			return false
+		}
+	}
+	return n > 0
+}
+
+// delegatedGuard: exit x returns, unchanged, the result tuple of a call of a new helper, and in that
+// helper (parameters rendered as this function's arguments) the guard is present and every success
+// exit passes it.
+func delegatedGuard(fa *FuncAn, x Exit, cls ExitClass, g GuardSpec) bool {
+	rs := RetResults(x.Ret)
+	if len(rs) == 0 {
+		return false
+	}
+	var call *ssa.Call
+	for i, r := range rs {
+		ex, ok := r.(*ssa.Extract)
+		if !ok || ex.Index != i {
+			if c0, isCall := r.(*ssa.Call); isCall && len(rs) == 1 {
+				call = c0
+				break
+			}
+			return false
+		}
+		cc, ok := ex.Tuple.(*ssa.Call)
+		if !ok || (call != nil && cc != call) {
+			return false
+		}
+		call = cc
+	}
+	if call == nil {
+		return false
+	}
+	h := call.Call.StaticCallee()
+	if h == nil || !newHelper(h) || fa.R.inlineDepth >= 2 {
+		return false
+	}
+	ha := NewFuncAnCtx(fa.W, h, fa.CallArgs(call))
+	ha.R.inlineDepth = fa.R.inlineDepth + 1
+	var pats []rawPat
+	for _, p := range g.Main {
+		pats = append(pats, rawPat{substParams(fa.Fn, p.X), substParams(fa.Fn, p.Y), p, true})
+	}
+	for _, p := range g.Unless {
+		pats = append(pats, rawPat{substParams(fa.Fn, p.X), substParams(fa.Fn, p.Y), p, false})
+	}
+	hpass, hall := ha.matchGuardsRaw(pats, 1)
+	hexits := ha.SuccessExits(cls)
+	if len(hpass) == 0 || len(hexits) == 0 {
+		return false
+	}
+	return ha.PathAvoiding(hall, hexits) == nil
 }
